@@ -8,7 +8,8 @@ TEXT = ('A spatial track without a resolvable listener writes Frame::ZERO for ev
         'min + (1 - min)·v; the distance range is only used by clamp(min,max) and /(max-min) after an ordering test of the two '
         'bounds; the spatial info is inherited by child tracks and feeds Info::listener_distance. Monotonicity, symmetry and '
         'gain bounds are relations between renderings and are not decided.'
-        ' Inside the spatial branch the per-frame listener loop cannot be skipped.')
+        ' Inside the spatial branch the per-frame listener loop cannot be skipped.'
+        ' With an attenuation function the signal is multiplied by the distance amplitude on every path; it is folded to mono exactly when the strength is non-zero.')
 TECHNIQUE = 'MIR path / operand-flow rules'
 
 TRACK = 'track::sub::Track'
@@ -114,6 +115,45 @@ def run(ctx, R, tier):
         R.check(okg, 'B.C15.strength', 'ear-gain', 'per-ear factor is not min + (1 - min)·(dot + 1)/2 (%d candidates)' % len(gains),
                 detail={'min_ear_amplitude': M[:120] if M else None})
 
+    # ---- attenuation and the mono fold-down (shape of SpatialData::spatialize)
+    if sb is not None:
+        from ..paths import switch_info
+        mul = [(x, t) for x, t in sb.calls() if (callee_path(t) or '').endswith('::mul_assign') and 'frame::Frame' in (callee_path(t) or '')]
+        att = [(x, t) for x, t in mul if 'relative_distance(' in describe(sb, t['args'][1], depth=14, at=x)
+               and 'Decibels::as_amplitude(' in describe(sb, t['args'][1], depth=14, at=x)]
+        sw = [x for x in range(sb.n) if sb.blocks[x]['term']['k'] == 'switch' and not sb.blocks[x]['cleanup']
+              and (switch_info(sb, x)[2] or '').endswith('attenuation_function')]
+        ok = len(att) == 1 and len(sw) == 1
+        if ok:
+            t = sb.blocks[sw[0]]['term']
+            desc, labels, dplace = switch_info(sb, sw[0])
+            tg = dict((labels.get(v, v), b2) for v, b2 in t['targets'])
+            some_t = tg.get('Some', t['otherwise'] if 'None' in tg else None)
+            none_t = tg.get('None', t['otherwise'] if 'Some' in tg else None)
+            after = [x for x in sb.reachable([none_t]) if not sb.blocks[x]['cleanup']] if none_t is not None else []
+            # with an attenuation function, the code after the branch is reached only through the multiplication
+            from ..rules import must_pass
+            ok = some_t is not None and must_pass(sb, [some_t], after, [att[0][0]])
+        R.check(ok, 'B.C15.atten', 'spatialize',
+                'with an attenuation function the signal is not multiplied, on every path, by the amplitude derived from '
+                'relative_distance(|listener - emitter|) (the distance would not change the level)',
+                detail='if let Some(f) = attenuation_function { output *= amplitude(f(1 - relative_distance)) }', where=sb.file)
+        mono = [x for x, t in sb.calls() if (callee_path(t) or '') == 'frame::Frame::as_mono']
+        okm = False
+        if len(mono) == 1:
+            for x in range(sb.n):
+                t = sb.blocks[x]['term']
+                if t['k'] == 'switch' and sb.dominates(x, mono[0]) and x != mono[0]:
+                    d = describe(sb, t['op'], depth=6, at=x)
+                    if d.startswith(('Ne(', 'Eq(')) and 'spatialization_strength' in d and d.rstrip(')').endswith('0.0'):
+                        nz = t['otherwise'] if d.startswith('Ne(') else dict(t['targets']).get('0')
+                        z = dict(t['targets']).get('0') if d.startswith('Ne(') else t['otherwise']
+                        # folded to mono (and panned) exactly on the non-zero side; the zero side returns the stereo signal
+                        okm = nz is not None and sb.dominates(nz, mono[0]) and (z is None or mono[0] not in sb.reachable([z], stop=[x]))
+        R.check(okm, 'B.C15.strength', 'mono-iff-panned',
+                'the signal is not folded to mono exactly when the spatialisation strength is non-zero (at strength 0 the stereo signal must pass unpanned)',
+                detail='if strength != 0.0 { output = output.as_mono(); pan }')
+
     # ---- distance range
     rb = F.body('track::sub::spatial_builder::SpatialTrackDistances::relative_distance')
     if R.check(rb is not None, 'B.C15.range', 'anchor', 'relative_distance not found'):
@@ -128,8 +168,18 @@ def run(ctx, R, tier):
                 t = rb.blocks[x]['term']
                 if t['k'] == 'switch' and x != bb and rb.dominates(x, bb):
                     d = describe(rb, t['op'], depth=4, at=x)
-                    if 'min_distance' in d and 'max_distance' in d and d.split('(')[0] in ('Lt', 'Le', 'Gt', 'Ge'):
-                        g = True
+                    from ..paths import parse_term
+                    gn, ga = parse_term(d)
+                    # only the TRUE side of a strict `min < max` (or `max > min`) establishes an ordered, non-NaN pair:
+                    # `<=` admits min == max (0/0), and the false side of `>=` admits NaN (f32::clamp panics)
+                    strict = ga is not None and len(ga) == 2 and (
+                        (gn == 'Lt' and 'min_distance' in ga[0] and 'max_distance' in ga[1]) or
+                        (gn == 'Gt' and 'max_distance' in ga[0] and 'min_distance' in ga[1]))
+                    if strict:
+                        true_t = t['otherwise']
+                        false_t = dict(t['targets']).get('0')
+                        if rb.dominates(true_t, bb) and (false_t is None or bb not in rb.reachable([false_t], stop=[x])):
+                            g = True
             if not g:
                 guarded_here = False
         # or: every constructor orders / validates the pair
